@@ -17,16 +17,25 @@ Inductive case :=
    authentication / permission / configuration-guard reasons (it reached the operation body:
    success or an argument/state error) *)
 | CCell (svc rpc : string) (cf : cfg) (k : kind) (h : hdr) (sel tgt : dbsel) (st : sstate) (through : bool)
+(* the same for a group of RPCs called in ONE credential context (same configuration, user,
+   credential, databases and state): the matrix is recorded as about three such groups per context,
+   which keeps the number of terms coqc has to load small *)
+| CCtx (cf : cfg) (k : kind) (h : hdr) (sel tgt : dbsel) (st : sstate) (cells : list (string * string * bool))
 (* the harness' own copy of the specification row (used by its direct property oracle) *)
 | CSpec (svc rpc : string) (class_code_ : N) (mutates_ dbmgmt_ : bool).
 
+Definition cell_ok (c : cx) (svc rpc : string) (through : bool) : bool :=
+  match find_gate svc rpc with
+  | Some g => Bool.eqb (verdict_eqb (decide g c) Through) through
+  | None => false
+  end.
+
 Definition case_ok (c : case) : bool :=
   match c with
-  | CCell svc rpc cf k h sel tgt st through =>
-      match find_gate svc rpc with
-      | Some g => Bool.eqb (verdict_eqb (decide g (mk_cx cf k h sel tgt st)) Through) through
-      | None => false
-      end
+  | CCell svc rpc cf k h sel tgt st through => cell_ok (mk_cx cf k h sel tgt st) svc rpc through
+  | CCtx cf k h sel tgt st cells =>
+      let c := mk_cx cf k h sel tgt st in
+      forallb (fun x => match x with (svc, rpc, through) => cell_ok c svc rpc through end) cells
   | CSpec svc rpc cc m d =>
       match find_spec svc rpc with
       | Some s => (class_code (sp_class s) =? cc)%N && Bool.eqb (sp_mutates s) m && Bool.eqb (sp_dbmgmt s) d
